@@ -11,10 +11,10 @@ import (
 )
 
 type readerCfg struct {
-	pkg, reader, dec                       string
+	pkg, reader, dec                      string
 	head, waiting, working, control, done string // fields of reader
-	dwg                                    string // wait group field of decompressor
-	seek, closeM, newReader                string
+	dwg                                   string // wait group field of decompressor
+	seek, closeM, newReader               string
 }
 
 var htsReaderCfg = readerCfg{pkg: "bgzf", reader: "Reader", dec: "decompressor",
